@@ -906,11 +906,21 @@ impl ExprCompiled {
         step: Option<IrSpanned<ExprCompiled>>,
         ctx: &mut OptCtx,
     ) -> ExprCompiled {
+        // An absent component is `Some(None)`; a present but non-constant
+        // component is `None` and prevents folding.
+        fn const_component(
+            e: &Option<IrSpanned<ExprCompiled>>,
+        ) -> Option<Option<FrozenValue>> {
+            match e {
+                None => Some(None),
+                Some(e) => e.as_value().map(Some),
+            }
+        }
         if let (Some(array), Some(start), Some(stop), Some(step)) = (
             array.as_builtin_value(),
-            start.as_ref().map(|e| e.as_value()),
-            stop.as_ref().map(|e| e.as_value()),
-            step.as_ref().map(|e| e.as_value()),
+            const_component(&start),
+            const_component(&stop),
+            const_component(&step),
         ) {
             if let Ok(v) = array.to_value().slice(
                 start.map(|v| v.to_value()),
